@@ -30,6 +30,20 @@ define_language! {
     }
 }
 
+// C18: operators with SEVERAL payload fields next to children, and no catch-all Symbol leaf (a payload text such as
+// `width` is not a term, a numeral is both a term and a possible payload)
+define_language! {
+    pub enum Pay {
+        Var(Slot) = "var",
+        Nil() = "nil",
+        Pair(AppliedId, AppliedId) = "pair",
+        Get(u32, Symbol, AppliedId) = "get",
+        Rec(u32, AppliedId, AppliedId, Symbol) = "rec",
+        Tag(Symbol, Symbol, AppliedId) = "tag",
+        Num(u32),
+    }
+}
+
 define_language! {
     pub enum ArrayLang {
         Lam(Slot, AppliedId) = "lam",
